@@ -1,5 +1,6 @@
 (* Case evaluator for the C12 correspondence shards. *)
 From GL Require Import Stack.Registry Stack.RegSpec Stack.CallFrames.
+From GL Require Export Stack.CtxTree Stack.Handover.
 
 Inductive case :=
 (* hook-driven histories against the real implementations *)
@@ -15,7 +16,18 @@ Inductive case :=
    2 = caught some other error; then an epilogue on the same state *)
 | CLimitCall (cfg : options) (need : Z) (outcome : Z) (epilogue_ok : bool)
 (* the same for the registry: [need] registry cells; outcome 1 = caught "registry overflow" *)
-| CLimitReg (cfg : options) (need : Z) (outcome : Z) (epilogue_ok : bool).
+| CLimitReg (cfg : options) (need : Z) (outcome : Z) (epilogue_ok : bool)
+(* context bookkeeping through the public API (SetContext, NewThread, Resume to the end): after every
+   operation, Context().Err() != nil of every thread made so far *)
+| CCtx (ops : list xop) (obs : list (list bool))
+(* a coroutine hands [k] values to a resumer (LState.Resume on a state made with RegistrySize [init],
+   RegistryGrowStep [grow], RegistryMaxSize [max]) whose registry holds [t] values.
+   mode 0 = yield, 1 = return, 2 = error (k = 1: the message). Observed: st 0 = Resume returned,
+   1 = "registry overflow" raised in the resumer, 2 = anything else; the number of values received and
+   whether they are the right ones; whether the coroutine was afterwards what it is after a completed
+   hand-over (suspended in its yield and continuing its body on the next resume / dead) and the
+   resumer the running thread *)
+| CHandover (init grow max t k mode : Z) (st nvals : Z) (valsok childok : bool).
 
 Definition junk8 : list frame := repeat (mkFrame 999 999) 8.
 
@@ -51,6 +63,15 @@ Fixpoint spec_reg (l : list cell) (lim : Z) (ops : list rop) (obs : list robs) :
   | _, _ => false
   end.
 
+Definition ints (n : Z) : list cell := map (fun i => Some (VInt (Z.of_nat i))) (seq 1 (Z.to_nat n)).
+
+(* the resumer's registry with t values, the coroutine's with the k values on top *)
+Definition ho_run (init grow max t k : Z) : ho_result :=
+  match pushAll (newRegistry init grow max) (ints t), pushAll (newRegistry 128 0 0) (ints k) with
+  | Ok p, Ok c => handover p c false (Some (VRef 1)) k
+  | _, _ => HoFault
+  end.
+
 Definition check_impl (c : case) : bool :=
   match c with
   | CFixed size ops obs => list_eqb sobs_eqb (frun (newFixed size) (dirty_ops ops)) obs
@@ -62,6 +83,13 @@ Definition check_impl (c : case) : bool :=
       ep && (outcome =? (if need <=? callLimit cfg then 0 else 1))
   | CLimitReg cfg need outcome ep =>
       ep && (outcome =? (if need <=? regLimit cfg then 0 else 1))
+  | CCtx ops obs => list_eqb (list_eqb Bool.eqb) (xobs [] ops) obs && (len obs =? len ops)
+  | CHandover init grow max t k mode st nvals valsok childok =>
+      match ho_run init grow max t k with
+      | HoDone p' _ => (st =? 0) && (top p' =? t + k + 1) && (nvals =? k) && valsok && childok
+      | HoRefused _ _ => (st =? 1) && childok
+      | _ => false
+      end
   end.
 
 Definition check_spec (c : case) : bool :=
@@ -80,4 +108,11 @@ Definition check_spec (c : case) : bool :=
              else (outcome =? 0) || (outcome =? 1))
   | CLimitReg cfg need outcome ep =>
       ep && (if need <=? regLimit cfg then outcome =? 0 else outcome =? 1)
+  (* the context of a live thread is never done (an undone context never changes behaviour) *)
+  | CCtx ops obs => spec_ctx [] ops obs
+  (* all (the status boolean and the k values fit below the limit) or nothing (a catchable error in
+     the resumer); either way the coroutine and the resumer are intact *)
+  | CHandover init grow max t k mode st nvals valsok childok =>
+      if t + k + 1 <=? Z.max init max then (st =? 0) && (nvals =? k) && valsok && childok
+      else (st =? 1) && childok
   end.
